@@ -53,10 +53,14 @@ def generator(kind, cfg):
                                             cartesian_product=cfg.get("cartesian", True))
 
 
-def rand_cfg(rng, kind, small_store=False):
+def rand_cfg(rng, kind, small_store=False, skew=None):
     sel_t, sel_x = rng.randint(1, 3), rng.randint(1, 3)
     nt_start, n_start = rng.randint(2, 5), rng.randint(2, 5)
     room_t, room_x = rng.randint(0, 3 if small_store else 7), rng.randint(0, 3 if small_store else 7)
+    if skew == "space_ahead":          # initial counts far apart: time and space bookkeeping must not borrow each other's start
+        n_start = nt_start + 2 * sel_t + rng.randint(1, 3); room_t = max(room_t, 4)
+    elif skew == "time_ahead":
+        nt_start = n_start + 2 * sel_x + rng.randint(1, 3); room_x = max(room_x, 4)
     # a store smaller than one full set is rejected by jax at trace time (update larger than operand):
     # outside the supported configurations, not generated
     nt_start, n_start = max(nt_start, sel_t), max(n_start, sel_x)
